@@ -99,4 +99,30 @@ def nontrivial(line, out):
 
 
 def search(ctx, broken, diffs):
-    return []
+    """the tie is broken (model and implementation disagree, or a proof no longer checks): sweep automatic masking
+    over many more symbols, first of the versions on which they disagree"""
+    r = ctx.rng
+    vs = []
+    for d in diffs:
+        t = d['line'].split()
+        if t[0] in ('qr.enc', 'mq.enc'):
+            vs.append((t[0][:2], int(t[1])))
+    cfgs = []
+    for sym in ('qr', 'mq'):
+        for (ver, level) in symgen.configs(sym):
+            w = 6 if (sym, ver) in vs else 1
+            cfgs += [(sym, ver, level)] * w
+    r.shuffle(cfgs)
+    meta, L = [], []
+    for (sym, ver, level) in cfgs[: 500]:
+        ms = symgen.masks(sym)
+        label, segs = symgen.shapes(sym, r, ver, level, 1)[0]
+        for mask in [-1] + ms:
+            L.append(symgen.enc_line(sym, ver, level, mask, segs))
+            meta.append((sym, ver, level, mask, segs))
+    save = ctx.c10
+    ctx.c10 = meta
+    out = ctx.go(L)
+    res = oracle(ctx, L, out)
+    ctx.c10 = save
+    return res
